@@ -20,6 +20,9 @@ def run(prop, tier):
     depth = {"stream": 8 if tier == "quick" else 12, "dgram": 9 if tier == "quick" else 14}
     os.makedirs(common.SCRATCH, exist_ok=True)
     jobs = [(k, f) for k in ("stream", "dgram") for f in (4, 6)]
+    # the same exploration, one level shallower, on a socket object built by p_socket_new_from_fd around a descriptor made by the harness
+    depth["stream-fd"] = depth["stream"] - 1; depth["dgram-fd"] = depth["dgram"] - 1
+    jobs += [("stream-fd", 4), ("dgram-fd", 6)]
 
     def one(j):
         k, f = j
@@ -37,7 +40,7 @@ def run(prop, tier):
     s = acc.stats
     cov = dict(states=s.get("states", 0), transitions=s.get("transitions", 0), traces_validated_against_impl=s.get("conformance_traces_checked", 0),
                evaluations=s.get("histories", 0), distinct_nontrivial=s.get("nontrivial", 0), conformance_mismatches=s.get("conformance_mismatches", 0),
-               rule="BFS over call sequences up to depth %d (deduplicated on the reference state) on one socket under test (stream / datagram, IPv4 / IPv6) plus a scripted peer: set_blocking, set_timeout "
+               rule="BFS over call sequences up to depth %d (deduplicated on the reference state) on one socket under test (stream / datagram, IPv4 / IPv6; made by p_socket_new, or one level shallower by p_socket_new_from_fd) plus a scripted peer: set_blocking, set_timeout "
                     "{0,50,-5}, set_keepalive, set_listen_backlog, bind, listen, connect to a listening / a closed port, accept, send, receive, io_condition_wait, shutdown, close, close again, peer connects / "
                     "sends / closes, send_to / receive_from; after every call all getters are compared with the reference, waits are judged on the virtual clock (timed-out not before T, non-blocking returns at "
                     "once without a blocking poll, no time-out = unbounded wait), every I/O call after close fails with not-available without a system call on a descriptor, new and accepted descriptors carry "
